@@ -215,7 +215,7 @@ def run(res, tier, build_ok):
         if bytes(b1) != bytes(b2):
             res.violation("order_independent", "encode_dict result depends on the order fields are supplied",
                           {"layout": lay, "order1": order1, "order2": order2, "b1": bytes(b1).hex(), "b2": bytes(b2).hex()})
-        elif any((bytes(out[k]) if not isinstance(vals[k], int) else out[k]) != (bytes(vals[k]) if not isinstance(vals[k], int) else vals[k]) for k in keys):
+        elif set(out) != set(keys) or any((bytes(out[k]) if not isinstance(vals[k], int) else out[k]) != (bytes(vals[k]) if not isinstance(vals[k], int) else vals[k]) for k in keys):
             res.violation("layout_roundtrip", "decode_bits(encode_dict(values)) != values for a non-overlapping layout",
                           {"layout": lay, "values": {k: (v if isinstance(v, int) else bytes(v).hex()) for k, v in vals.items()},
                            "decoded": {k: (v if isinstance(v, int) else bytes(v).hex()) for k, v in out.items()}})
